@@ -132,6 +132,9 @@ StaticBorrow(o, p, c) ==                                                       \
   /\ (c.op \in CloneOps /\ c.cls = "ok" /\ o.hd[c.g].k = "S") =>
         /\ c.dA + c.dR = 0
         /\ p.hd[T(c)].len > MaxInl => (p.hd[T(c)].pc = "static" /\ p.hd[T(c)].pid = o.hd[c.g].pid)
+  \* a call rejected for its index neither writes nor grows: the handle keeps borrowing, nothing is copied
+  /\ (c.cls = "panic" /\ c.msg = "index" /\ c.op \notin Ctors /\ o.hd[T(c)].k = "S") =>
+        (c.dA + c.dR = 0 /\ p.hd[T(c)] = o.hd[T(c)])
 
 CapGE(cap, len, n) == IF PIsSym(n) THEN FALSE ELSE cap >= len + n
 WithCap(p, c) == (c.op = "with_capacity" /\ c.cls = "ok") => CapGE(p.hd[T(c)].cap, 0, c.n)     \* C11 C06
